@@ -215,11 +215,12 @@ Proof.
     destruct target as [k|].
     + (* an existing entity *)
       unfold x_step in *. destruct (out_of_contract x (XoBuild tid (Some k) assigns removes)) eqn:Eooc; [simpl in Hv1; lia|].
+      pose proof Eooc as Hooc.
       simpl in Eooc. rewrite Hxl in Eooc. apply orb_false_iff in Eooc. destruct Eooc as (Eooc & Etgt). apply orb_false_iff in Eooc. destruct Eooc as (_ & End).
       apply negb_false_iff in End. apply NoDup_b_sound in End.
       assert (Hax : alive_x x k = true) by (unfold alive_x; destruct (find_ent x k); [reflexivity|discriminate]).
       unfold mstep in H. bd H r Hst. destruct r as (s1, out). cbn [concretize] in Hst. rewrite resolve_hnd in Hst.
-      destruct (MInvE_build_some cis s hs al x tid k assigns removes s1 out HE Hao End Hax) as (-> & al' & HE'); [lia|exact Hst|].
+      destruct (MInvE_build_some cis s hs al x tid k assigns removes s1 out HE Hao End Hax Hooc) as (-> & al' & HE'); [lia|exact Hst|].
       inversion H; subst s' hs'. exists al'. apply MInvE_set_log. exact HE'.
     + destruct assigns as [|a0 assigns0].
       * (* create() *)
